@@ -129,7 +129,29 @@ TAG_TO_ATTRIBUTE = {
 _NAMES = {
     0x420125: 'Attributes', 0x420155: 'Server Hashed Password', 0x420120: 'Sensitive',
     0x420091: 'Template-Attribute', 0x42005D: 'Operation Policy Name',
+    0x4200A3: 'Encoding Option', 0x4200AC: 'Object Group Member', 0x4200D4: 'Offset Items',
+    0x4200D5: 'Located Items', 0x4200FF: 'Authenticated Encryption Tag',
+    0x4200FE: 'Authenticated Encryption Additional Data', 0x4200C5: 'Random IV',
+    0x4200CD: 'IV Length', 0x4200CE: 'Tag Length', 0x4200C2: 'Data', 0x4200C6: 'MAC Data',
+    0x4200C3: 'Signature Data', 0x4200AE: 'Digital Signature Algorithm', 0x4200F8: 'Key Wrap Type',
 }
+
+
+# The standard tag space 0x420001.. was allocated in specification order, so a tag's number tells the
+# version whose tag table (9.1.3.1) first lists it: 1.0 up to 0x4200A1 (Password), 1.1 up to 0x4200B7
+# (X.509 Certificate Subject), 1.2 up to 0x4200D3 (Attestation Capable Indicator), 1.3 up to 0x4200F7
+# (Capability Information), 1.4 up to 0x420124 (Replace Existing), 2.0 from 0x420125 (Attributes).
+TAG_RANGES = [(0x420125, V20), (0x4200F8, V14), (0x4200D4, V13), (0x4200B8, V12), (0x4200A2, V11)]
+
+
+def tag_first(t):
+    """First KMIP version that defines standard tag t (None for extension tags 0x54xxxx)."""
+    if not (0x420000 <= t <= 0x42FFFF):
+        return None
+    for lo, v in TAG_RANGES:
+        if t >= lo:
+            return v
+    return V10
 
 
 def tagname(t):
